@@ -33,6 +33,9 @@ def main():
             verdict = 'not by %s; caught by %s' % (m['property'], m['caught_by_other'])
         else:
             verdict = 'MISSED'
+        fn = os.path.join(SD, sid, 'final_note.txt')
+        if os.path.exists(fn):
+            verdict += ' [' + open(fn).read().strip() + ']'
         rows.append((sid, ', '.join(f.replace('src/ZODB/', '') for f in files), title, verdict, m.get('check_wall_s'), m.get('at', '')))
     out = ['# Seeded changes (written by independent sub-agents; confirmed and run here by tools_seeded.py)', '',
            'Each directory holds patch.diff (never committed to /repo), demo.py (exits 0 on the unchanged tree, non-zero with the',
